@@ -25,8 +25,11 @@ pub open spec fn cfun(c: v1::Constraint) -> v1::Function { match c.function { So
     asm.file('spec/penalty_spec.rs')
     asm.raw('} // mod lib\npub mod units {\n' + common.UNITS_USES + 'broadcast use super::lib::ax_zero_f64, super::lib::lemma_pen_obj_push, super::lib::lemma_pen_steps_push;\n')
     asm.raw(fn_stubs.ADD + fn_stubs.MUL + fn_stubs.PARMUL + fn_stubs.ZERO + io.defined_ids_stub(), 'assumed callee contracts')
-    for n in ('Add for Function', 'Mul for Function', 'Mul<Function> for &Parameter', 'Function::zero'):
-        asm.stubs.append(dict(unit=n, proved_in='C02'))
+    for n, where in (('Add for Function', 'C02 (same preconditions: oneofs set, fn_coo_ok); purity naming r == fn_add(..) is assumed'),
+                     ('Mul for Function', 'C02 (same preconditions); purity naming r == fn_mul(..) is assumed'),
+                     ('Mul<Function> for &Parameter', 'assumed here (macro instance impl_mul_parameter!(Function) = Linear::from(&p) * f, with the remainder named pmul_rem); exercised by the bounded stand-in'),
+                     ('Function::zero', 'C02')):
+        asm.stubs.append(dict(unit=n, proved_in=where))
     asm.stubs.append(dict(unit='Instance::defined_ids', proved_in='C08'))
     for u in (ev.instance_objective(), ev.constraint_function(), io.penalty_method(), io.uniform_penalty_method()):
         asm.unit(u)
@@ -44,6 +47,6 @@ proof fn vacuity_pre(f: v1::Function, cs: Seq<v1::Constraint>, ps: Seq<v1::Param
             'T4: Vec::into_iter().enumerate() (helper enumerate_vec), BTreeSet::last, Option::map over an annotated closure, maplit::hashmap! with one entry, u64::to_string',
             'R21: `&parameter * f.clone() * f` rewritten to the UFCS call of `impl Mul<Function> for &Parameter` (Verus mis-resolves operators on reference receivers)',
         ],
-        assumptions=common.A1 + ['preconditions (observations outside the property): no id overflow, oneofs of objective/constraint functions are set'],
+        assumptions=common.A1 + ['preconditions (observations outside the property): no id overflow, oneofs of objective/constraint functions are set'] + common.A_COO,
         not_covered=[],
     )
